@@ -157,7 +157,17 @@ pub fn check_live(c: &LiveCase) -> Verdict {
         b.spec.rlimits.push((r, soft, soft + 4096));
     }
     for (i, f) in c.fds.iter().enumerate() {
-        let p = scratch.join(format!("fd {i} \u{e9}")).as_os_str().as_bytes().to_vec();
+        // names with a blank and a non-ASCII letter; every fourth one also has characters outside the
+        // Basic Multilingual Plane (two UTF-16 units each) and every seventh is 200 bytes long
+        let p = scratch
+            .join(match (i % 4, i % 7) {
+                (3, _) => format!("fd {i} \u{1d11e}\u{e9}\u{1f600}.txt"),
+                (_, 6) => format!("fd {i} {}", "n".repeat(190)),
+                _ => format!("fd {i} \u{e9}"),
+            })
+            .as_os_str()
+            .as_bytes()
+            .to_vec();
         b.spec.fds.push(match f % 7 {
             0 => TFd::File(p),
             1 => TFd::Deleted(p),
